@@ -720,8 +720,9 @@ def serialise(fgd: FGD, file: IO[bytes]) -> None:
     This is expected to be in engine format - _CBaseEntity_ is present, with all others based on it,
     and no other base entities.
     """
-    CBaseEntity = fgd.entities.pop('_cbaseentity_')
-    all_ents: list[EntityDef] = list(fgd)
+    # Don't remove it from the FGD we were given, the caller may want to use (or serialise) that again.
+    CBaseEntity = fgd.entities['_cbaseentity_']
+    all_ents: list[EntityDef] = [ent for ent in fgd if ent is not CBaseEntity]
 
     print('Computing string sizes...')
     # We need the database for CBaseEntity, but not to include it with anything else.
